@@ -359,3 +359,44 @@ func Harness_C03_keyless_client() {
 	verif_Assert("C03.keyless.no_index", w.sm.GetControlConnectionByClientID(1005) == nil)
 	verif_Cover("C03.keyless.done")
 }
+
+// The lock-out holds at the handshake for every message of a locked-out address, not only for the
+// first leg: two connections from one address obtain their challenges first; then the address is
+// locked out - by the wrong answer of the first connection, by an operator's ban, or by a
+// blacklist entry - and the second connection answers its challenge correctly. It is refused and
+// stays unauthenticated until the lock-out ends.
+func Harness_C18_lockout_at_handshake() {
+	verif_ClockSet(int64(1) << 60)
+	ctx, stop := context.WithCancel(context.Background())
+	bf := security.NewBruteForceProtector(&security.BruteForceConfig{MaxFailures: 1, TimeWindow: time.Hour, BanDuration: time.Hour, PermanentBanAt: 100, CleanupInterval: time.Hour}, ctx)
+	ipm := security.NewIPManager(nil, ctx)
+	w := newC03World(ctx, stop, bf, ipm)
+	defer w.close()
+	verif_UseTapeRandom()
+	a, b := w.conns[0], w.conns[1]
+	b.rw.ip = net.IPv4(10, 0, 0, 1) // the same address as a
+	ra, _ := w.send(a, &packet.HandshakeRequest{ClientID: 1001, ConnectionType: "control"})
+	rb, _ := w.send(b, &packet.HandshakeRequest{ClientID: 1002, ConnectionType: "control"})
+	verif_Assert("C18.hs.setup.challenges", ra != nil && ra.NeedResponse && rb != nil && rb.NeedResponse)
+	good := w.mgr.ComputeResponse("s2", rb.Challenge)
+	switch verif_Choose(3) {
+	case 0:
+		r, err := w.send(a, &packet.HandshakeRequest{ClientID: 1001, ChallengeResponse: "00", ConnectionType: "control"})
+		verif_Assert("C18.hs.setup.wrong_answer_refused", err != nil && (r == nil || !r.Success))
+		banned, _ := bf.IsBanned("10.0.0.1")
+		verif_Assert("C18.hs.setup.banned_by_failure", banned)
+		verif_Cover("C18.hs.locked_by_failure")
+	case 1:
+		bf.BanIP("10.0.0.1", time.Hour, "operator")
+		verif_Cover("C18.hs.locked_by_ban")
+	default:
+		verif_Assert("C18.hs.setup.blacklist", ipm.AddToBlacklist("10.0.0.1", time.Hour, "r", "t") == nil)
+		verif_Cover("C18.hs.locked_by_blacklist")
+	}
+	r2, err := w.send(b, &packet.HandshakeRequest{ClientID: 1002, ChallengeResponse: good, ConnectionType: "control"})
+	verif_Assert("C18.hs.second_leg_refused", err != nil && (r2 == nil || !r2.Success))
+	cc := w.sm.GetControlConnection(b.rw.id)
+	verif_Assert("C18.hs.not_authenticated", cc == nil || !cc.IsAuthenticated())
+	verif_Assert("C18.hs.no_index", w.sm.GetControlConnectionByClientID(1002) == nil)
+	verif_Cover("C18.hs.done")
+}
